@@ -305,3 +305,123 @@ def _replay19(ob):
 
 
 REPLAYS = [("tracebacks.CallError*", _replay), ("tracebacks.*", _replay19)]
+
+
+# ---------------------------------------------------------------------------------------------------------------------
+# bounded stand-in: the statement of C19 on the real uberjob for every kind of creating line
+# ---------------------------------------------------------------------------------------------------------------------
+C19_BOUNDED_SCRIPT = """
+import datetime as dt, inspect, sys
+import uberjob
+from uberjob import Plan, Registry, ValueStore
+from uberjob._util.traceback import MAX_TRACEBACK_DEPTH, TruncatedStackFrame
+bad = []
+def here():
+    f = inspect.currentframe().f_back; out = []
+    while f is not None: out.append((f.f_code.co_name, f.f_lineno)); f = f.f_back
+    return out
+def frames(sf):
+    out = []; trunc = False
+    while sf is not None:
+        if sf is TruncatedStackFrame or isinstance(sf, type(TruncatedStackFrame)) and sf is TruncatedStackFrame: trunc = True; break
+        if not hasattr(sf, "name"): trunc = True; break
+        out.append((sf.name, sf.line)); sf = sf.outer
+    return out, trunc
+def check(tag, err, node, want):
+    if not isinstance(err, uberjob.CallError): bad.append((tag, "run raised", repr(err))); return
+    if node is not None and err.call is not node: bad.append((tag, "CallError.call is not the failing symbolic call", repr(err.call)))
+    got, trunc = frames(err.call.stack_frame)
+    exp = want[:MAX_TRACEBACK_DEPTH + 1]
+    if got != exp: bad.append((tag, "symbolic traceback", got[:4], "expected", exp[:4], "lengths", len(got), len(exp)))
+    if trunc != (len(want) > MAX_TRACEBACK_DEPTH + 1): bad.append((tag, "truncation marker", trunc, len(want)))
+    lines = [l for l in str(err).splitlines() if l.strip().startswith("File ")]
+    if lines and not (f"line {exp[0][1]}" in lines[-1] and lines[-1].rstrip().endswith("in " + exp[0][0])): bad.append((tag, "rendered message does not end at the creating line", lines[-1]))
+    if len(lines) > 1 and exp[-1][0] not in lines[0]: bad.append((tag, "rendered message is not outermost first", lines[0]))
+def run(plan, **kw):
+    try: uberjob.run(plan, progress=None, **kw); return None
+    except BaseException as e: return e
+def boom(*a, **k): raise ValueError("boom")
+def ok(*a, **k): return 1
+class Store(ValueStore):
+    def __init__(self, fail=None, has=False): self.fail, self.has = fail, has
+    def read(self):
+        if self.fail == "read": raise IOError("read fails")
+        return 1
+    def write(self, v):
+        if self.fail == "write": raise IOError("write fails")
+        self.has = True
+    def get_modified_time(self):
+        if self.fail == "mtime": raise IOError("mtime fails")
+        return dt.datetime(2020, 1, 1) if self.has else None
+def deep(n, f):
+    return deep(n - 1, f) if n else f()
+for depth in (0, 3, MAX_TRACEBACK_DEPTH + 5):
+    # plan.call
+    def mk():
+        p = Plan(); n = p.call(boom); w = here(); return p, n, w
+    p, n, w = deep(depth, mk); check(f"plan.call depth {depth}", run(p, output=n), n, w)
+    # keyword argument + structured argument: the implicit gather call fails at run time (unhashable set element)
+    def mk():
+        p = Plan(); a = p.call(list); n = p.call(ok, x={a}); w = here(); return p, n, w
+    p, n, w = deep(depth, mk); check(f"implicit gather of a keyword argument depth {depth}", run(p, output=n), None, w)
+    # plan.gather of a nested structure
+    def mk():
+        p = Plan(); a = p.call(list); n = p.gather([1, ({a}, 2)]); w = here(); return p, n, w
+    p, n, w = deep(depth, mk); check(f"plan.gather nested depth {depth}", run(p, output=n), None, w)
+    # plan.unpack: wrong length
+    def mk():
+        p = Plan(); a = p.call(lambda: (1, 2, 3)); t = p.unpack(a, 2); w = here(); return p, t, w
+    p, t, w = deep(depth, mk); check(f"plan.unpack depth {depth}", run(p, output=t[0]), None, w)
+    # registry.add: failing write, failing read-back, failing modified-time query
+    for fail in ("write", "read", "mtime"):
+        def mk():
+            p = Plan(); r = Registry(); n = p.call(ok); wn = here(); r.add(n, Store(fail)); wr = here(); return p, r, n, wn, wr
+        p, r, n, wn, wr = deep(depth, mk)
+        check(f"registry.add failing {fail} depth {depth}", run(p, registry=r, output=n), None, wn if fail == "mtime" else wr)
+    # registry.source: failing read
+    def mk():
+        p = Plan(); r = Registry(); n = r.source(p, Store("read", has=True)); w = here(); return p, r, n, w
+    p, r, n, w = deep(depth, mk); check(f"registry.source failing read depth {depth}", run(p, registry=r, output=n), None, w)
+# one creating line reached through two different callers
+def helper(p): n = p.call(boom); w = here(); return n, w
+def caller_a(p): return helper(p)
+def caller_b(p): return helper(p)
+p = Plan(); (na, wa), (nb, wb) = caller_a(p), caller_b(p)
+check("same line via caller_a", run(p, output=na), na, wa); check("same line via caller_b", run(p, output=nb), nb, wb)
+for b in bad[:6]: print("C19 violated:", b)
+print(len(bad), "problem(s)"); sys.exit(1 if bad else 0)
+"""
+
+
+def _replay19b(ob=None):
+    import os
+    import subprocess
+    import tempfile
+
+    from ujvc.z3env import REPO_SRC
+
+    with tempfile.NamedTemporaryFile("w", suffix=".py", delete=False) as f:
+        f.write(C19_BOUNDED_SCRIPT)
+        path = f.name
+    try:
+        p = subprocess.run(["/venv/bin/python", path], env=dict(os.environ, PYTHONPATH=REPO_SRC), capture_output=True, text=True, timeout=300)
+    finally:
+        os.unlink(path)
+    return {"reproduced": p.returncode == 1, "detail": (p.stdout + p.stderr)[-3000:], "script": C19_BOUNDED_SCRIPT, "rc": p.returncode}
+
+
+def _c19_bounded(ctx):
+    """bounded: every kind of creating line (plan.call, implicit gather, plan.gather nested, unpack, registry.add write / read-back / modified-time, registry.source) at stack depths 0, 3 and beyond the limit; one line through two callers"""
+    r = _replay19b()
+    ctx.check("bounded/attribution-probe-ran", bool(r["rc"] in (0, 1)), info=r["detail"][-1500:])
+    ctx.check("bounded/every-failure-attributed-to-the-creating-user-line,enclosing-frames-up-to-the-limit,truncation-marked,rendered-outermost-first", bool(r["rc"] != 1), info=r["detail"][-2500:])
+    return "ok"
+
+
+unit("tracebacks.native[bounded]", props=["C19"],
+     functions=[(TB, "get_stack_frame"), (TB, "render_symbolic_traceback"), ("_plan.py", "Plan._call"), ("_plan.py", "Plan._gather"), ("_plan.py", "Plan._gather.<locals>.recurse"),
+                ("_plan.py", "Plan.call"), ("_plan.py", "Plan.gather"), ("_plan.py", "Plan.unpack"), ("_registry.py", "Registry.add"), ("_registry.py", "Registry.source"),
+                (ER, "CallError.__init__"), (ER, "create_chained_call_error")],
+     assumptions=["bounded stand-in: see the script in contracts/tracebacks.py"], min_obligations=2, kind="bounded")(_c19_bounded)
+
+REPLAYS = [("tracebacks.CallError*", _replay), ("tracebacks.native*", _replay19b), ("tracebacks.*", _replay19)]
